@@ -135,9 +135,9 @@ def binOK (v : Bytes) : Bool :=
   else v.all isB64 && v.length % 4 ≠ 1
 
 def isReservedHeader (n : Bytes) : Bool :=
-  (match n with | 58 :: _ => true | _ => false) || reservedHeaders.any (fun r => b r = n)
+  (match n with | 58 :: _ => true | _ => false) || ccReservedHeaders.any (fun r => b r = n)
 
-def isWhitelistedHeader (n : Bytes) : Bool := whitelistedHeaders.any (fun r => b r = n)
+def isWhitelistedHeader (n : Bytes) : Bool := ccWhitelistedHeaders.any (fun r => b r = n)
 
 /-- result of the `for _, hf := range frame.Fields` loop of `operateHeaders` -/
 structure Scan where
@@ -288,7 +288,7 @@ structure State where
   goAwayErrs : Nat              -- times handleGoAway returned a connection error
 deriving Repr, DecidableEq, Inhabited
 
-def limit : Nat := defaultWindowSize
+def limit : Nat := ccDefaultWindowSize
 
 /-- Does `http2Client.reader` return (and hence `Close` the transport) when `handleGoAway` reports a
 connection error?  Read off the CURRENT source of `reader` (T4): is there a `return` after the call.
@@ -304,7 +304,7 @@ def init (errCloses : Bool) (hdrSize : Nat) (maxConc : Option Nat) (maxSendHdr :
   let mc := maxConc.getD maxU32
   { errCloses := errCloses, hdrSize := hdrSize, now := 0, tstate := .reachable, nextID := 1, streams := [], rpcs := [],
     goAwayClosed := false, prevGoAwayID := 0, reason := 0,
-    quota := (defaultMaxStreamsClient : Int) + ((mc : Int) - (defaultMaxStreamsClient : Int)), maxConc := mc, waiting := 0,
+    quota := (ccDefaultMaxStreamsClient : Int) + ((mc : Int) - (ccDefaultMaxStreamsClient : Int)), maxConc := mc, waiting := 0,
     maxSendHdr := maxSendHdr, chanGen := 0, token := false, unacked := 0,
     cbuf := [], cbufClosed := false, lDraining := false, estd := [], lExited := false, lBlocked := false,
     lExitPending := none, wbuf := [], held := false, connClosed := false, peerGone := false, readerDone := false,
